@@ -497,7 +497,7 @@ func build(thorough bool) spaces {
 	sp.corpusN = len(cs)
 	// thorough: all edits on the whole corpus, huge counts on one stream per sequence of count-owning tags;
 	// quick: truncations and deletions on the whole corpus, substitutions and insertions on one stream per set
-	// of count-owning tags, huge counts on every second of those
+	// of count-owning tags and one per leading tag, huge counts on every second of the former
 	editSub, hugeSub := map[string]bool{}, map[string]bool{}
 	if thorough {
 		for _, s := range corpus.FirstPer(cs, corpus.TagSeq) {
@@ -509,6 +509,11 @@ func build(thorough bool) spaces {
 			if i%2 == 0 {
 				hugeSub[string(s.Bytes)] = true
 			}
+		}
+		// and one stream per leading tag (dates, times, doubles, guids ... own no counts but turn into counts
+		// under a substitution of their tag)
+		for _, s := range corpus.FirstPer(cs, func(b []byte) string { return string(b[:1]) }) {
+			editSub[string(s.Bytes)] = true
 		}
 	}
 	explicit := func(domain string, valid [][]byte, edits, huge func([]byte) bool, prefixes []string) ([][]byte, []riskyIn) {
@@ -677,6 +682,17 @@ type agg struct {
 	domains map[string]bool
 	kinds   map[string]bool
 	rep     violRec
+	spin    *violRec // the spinning reader-fed evaluation with the largest announced count (for the in-memory twin)
+}
+
+var valueRe = regexp.MustCompile(`value=([0-9]+)`)
+
+// announced returns the replaced count of a huge-count mutant (as a comparable string), "" otherwise.
+func announced(v violRec) string {
+	if m := valueRe.FindStringSubmatch(v.Meta); m != nil {
+		return fmt.Sprintf("%030s", m[1])
+	}
+	return ""
 }
 
 func better(a, b violRec) bool { // a is a better representative than b
@@ -836,6 +852,12 @@ func main() {
 		} else if better(v, a.rep) {
 			a.rep = v
 		}
+		if v.Kind == "spin" {
+			if a.spin == nil || announced(v) > announced(*a.spin) || announced(v) == announced(*a.spin) && better(v, *a.spin) {
+				c := v
+				a.spin = &c
+			}
+		}
 		a.count += v.Count
 		a.domains[v.Domain] = true
 		a.kinds[v.Kind] = true
@@ -973,9 +995,9 @@ func main() {
 		nextID++
 		confirm = append(confirm, job{ID: nextID, Domain: a.rep.Domain, Inputs: in, Bomb: a.rep.Bomb, From: a.rep.Cell, To: a.rep.Cell + 1, Exact: true, NoCount: true, Meta: a.rep.Meta})
 		confirmSig = append(confirmSig, s)
-		if a.rep.Kind == "spin" {
+		if a.spin != nil {
 			nextID++
-			confirm = append(confirm, job{ID: nextID, Domain: a.rep.Domain, Inputs: in, From: a.rep.Cell + 1, To: a.rep.Cell + 2, Exact: true, NoCount: true, Meta: "in-memory-twin"})
+			confirm = append(confirm, job{ID: nextID, Domain: "io", Inputs: [][]byte{a.spin.Input}, From: a.spin.Cell + 1, To: a.spin.Cell + 2, Exact: true, NoCount: true, Meta: "in-memory-twin"})
 			confirmSig = append(confirmSig, s)
 		}
 	}
@@ -996,10 +1018,7 @@ func main() {
 			}
 			s := sigOf[j.ID]
 			if j.Meta == "in-memory-twin" {
-				twin[s] = verdict
-				if verdict == "no violation" {
-					run.Infra("the in-memory twin of a spinning reader-fed decode returned normally; skipping in-memory evaluations is not justified for " + s)
-				}
+				twin[s] = fmt.Sprintf("%s via %s: %s", quoted(j.Inputs[0]), cellName("io", j.From), verdict)
 			} else {
 				isolated[s] = verdict
 			}
@@ -1015,7 +1034,7 @@ func main() {
 			a.rep.Msg, a.rep.Quoted, map[bool]string{true: " " + a.rep.Bomb, false: ""}[a.rep.Bomb != ""], a.rep.Name, a.count, len(a.cells),
 			corpus.SortedKeys(a.domains), corpus.SortedKeys(a.kinds), strings.Join(cells, "; "), isolated[s])
 		if t, ok := twin[s]; ok {
-			what += "; in-memory twin of the same evaluation: " + t
+			what += "; in-memory twin of the spinning evaluation with the largest count: " + t
 		}
 		what += "]"
 		run.Violate(s, what, a.rep)
@@ -1046,7 +1065,7 @@ func main() {
 	sp.info["corpus_streams"] = sp.corpusN
 	run.Set("space", sp.info)
 	run.Assumption("scope hypothesis: a decoder defect reachable from untrusted bytes shows on a string of at most the stated length over the tag alphabet, on a single-byte edit or a count/length/index replacement of a short valid stream, or on a nesting bomb")
-	run.Assumption("a reader-fed decode that asks for more data more than 100000 + 256 x len times after io.EOF is convicted as an unbounded loop; the in-memory variants of that (input, destination, mode) are then not run (they differ only in loadMore and would each burn the CPU budget); one in-memory twin per signature is run under the CPU budget to confirm, and a twin that returns normally is an infrastructure error")
+	run.Assumption("a reader-fed decode that asks for more data more than 100000 + 256 x len times after io.EOF is convicted as an unbounded loop; the in-memory variants of that (input, destination, mode) are then not run (they run the same loop, differ only in loadMore and would each burn the CPU budget; whatever they did would carry the same signature); per signature the in-memory twin of the spinning evaluation with the largest count is run under the CPU budget and its verdict is recorded")
 	run.Assumption("workers run under ulimit -v 2 GiB: an allocation the address space cannot satisfy kills the worker and convicts the one evaluation named by its journal; smaller over-allocations are measured (TotalAlloc delta against 1 MiB + 256 x len)")
 	run.Assumption("time oracle: 3 s of process CPU time per evaluation (plus 10 us per input byte) and a 120 s wall-clock watchdog per job; nothing below that is judged by the clock")
 	run.Assumption("the at= label of a signature (panic site, allocation site, loop) is derived from stacks and the allocation profile; it names the verdict, it does not decide it")
